@@ -3,6 +3,8 @@ Core-only so that it links as a `lean_exe`. -/
 import OsmoVerif.Model.DrvNum
 import OsmoVerif.Model.DrvMath
 import OsmoVerif.Model.DrvMint
+import OsmoVerif.Model.DrvRouter
+import OsmoVerif.Model.DrvTwap
 import OsmoVerif.Model.DrvGamm
 import OsmoVerif.Model.DrvCL
 import OsmoVerif.Model.DrvCLPool
@@ -16,6 +18,8 @@ open OsmoVerif
 
 structure St where
   mint : Mint.DrvState := Mint.initMint
+  router : Router.FeeCfg := Router.initRouter
+  twap : Twap.DrvState := Twap.initTwap
   gamm : Gamm.State := Gamm.initGamm
   clp : CLPool.Pool := CLPool.initCLPool
   sumtree : SumTree.Store := SumTree.initSumTree
@@ -39,6 +43,8 @@ def step (st : St) (line : String) : St × String :=
   | "auth" :: op :: args => let (a, o) := Auth.stepAuth st.auth op args; ({ st with auth := a }, o)
   | "lockup" :: op :: args => let (m, o) := Lockup.stepLockup st.lockup op args; ({ st with lockup := m }, o)
   | "gamm" :: op :: args => let (x, o) := Gamm.stepGamm st.gamm op args; ({ st with gamm := x }, o)
+  | "twap" :: op :: args => let (x, o) := Twap.stepTwap st.twap op args; ({ st with twap := x }, o)
+  | "router" :: op :: args => let (x, o) := Router.stepRouter st.router op args; ({ st with router := x }, o)
   | "mint" :: op :: args => let (m, o) := Mint.stepMint st.mint op args; ({ st with mint := m }, o)
   | _ => (st, "bad-op")
 
